@@ -7,6 +7,7 @@ from amaranth.lib import data
 from amaranth.lib.memory import Memory
 from amaranth.sim import Simulator
 
+from vlib.reuse import elaborated_before
 from vlib.runner import Part, Mismatch, HarnessError
 from vlib.gen_expr import INT, BOOL, PICK
 
@@ -241,6 +242,8 @@ def mem_body(ctx, case):
     with warnings.catch_warnings():
         warnings.simplefilter("ignore")
         m, cds, mem, wps, rps, sh = build(case)
+        if elaborated_before(case, m):
+            ctx.tally("reuse:design-elaborated-before")
         sim = Simulator(m)
     model = Model(case)
     model.comb()
